@@ -43,7 +43,7 @@ Proof.
   - apply (delete_cl_done rc s name o c Hr Hc Hp).
   - rewrite (delete_find_ep rc s name o c Hr Hc Hp). assumption.
   - apply (delete_ep_done rc s name o c Hr Hc Hp). assumption.
-  - apply (delete_ep_done rc s name o c Hr Hc Hp). assumption.
+  - apply (delete_probe_done rc s name o c Hr Hc Hp). assumption.
   - eapply (delete_no_probe rc s name o c Hr Hc Hp); eassumption.
   - intros r eo e. apply (delete_req_done rc s name o c Hr Hc Hp).
   - intros id r choice. apply (delete_stale_pick rc s name o c Hr Hc Hp).
@@ -57,39 +57,60 @@ Proof.
 Qed.
 Print Assumptions C15_delete_cluster.
 
-(* Re-syncing cluster [name] with a server list [want] (accepted by the controller) in any state:
-   for an endpoint object of that cluster that is live and not wanted any more:
-   1  it leaves the endpoint map, its context (= probe context) is done, a tick sends no probe;
+(* Re-syncing cluster [name] with a server list [sv] (accepted by the controller), after EVERY history
+   [ops] — in particular whatever syncs (added enabled, added disabled and enabled later, disabled and
+   re-enabled, removed and re-added ...) started the probe loops that exist at that moment.
+   For an endpoint object of that cluster that is live and not in [sv] any more:
+   1  it leaves the endpoint map, its context is done, its probe context is done (every probe context is
+      derived from its endpoint's context, on the new-endpoint path and on the update path alike), a
+      health-check tick sends no probe;
    2  every request in flight on it — whatever its phase — has a done context;
-   for every other endpoint object (other cluster, or still wanted, or already gone):
-   3  same record, same context; cluster contexts are untouched; the request list is untouched and a
-      request on such an endpoint keeps the context it had. *)
-Theorem C15_remove_endpoint : forall rc s name aliases want o c,
+   for every other endpoint object (other cluster, or still listed, or already gone):
+   3  same object (identity, URL, map membership, cancel flag, health), same context; an endpoint of
+      another cluster is the very same record; cluster contexts are untouched; the request list is
+      untouched and a request on such an endpoint keeps the context it had. *)
+Theorem C15_remove_endpoint : forall rc ops name aliases sv o c,
+  let s := run rc init ops in
+  let want := map fst sv in
   resolve s name = Some o -> find_cl s o = Some c -> primary c = name ->
   conflict s o (name :: aliases) = false ->
-  let s' := fst (step rc s (OUpsert name aliases want)) in
+  let s' := fst (step rc s (OUpsert name aliases sv)) in
   (forall eo e, find_ep s eo = Some e -> ecl e = o -> elive e = true -> zmem (ename e) want = false ->
      (exists e', find_ep s' eo = Some e' /\ elive e' = false /\ ecancel e' = true /\ ep_done s' e' = true
-                 /\ snd (step rc s' (OTick eo)) = [])
+                 /\ probe_done s' e' = true /\ snd (step rc s' (OTick eo)) = [])
      /\ (forall r, In r (reqs s') -> rep r = Some eo -> req_done s' r = true))
   /\ (forall eo e, find_ep s eo = Some e -> (ecl e <> o \/ zmem (ename e) want = true \/ elive e = false) ->
-        find_ep s' eo = Some e /\ ep_done s' e = ep_done s e)
+        exists e', find_ep s' eo = Some e' /\ eobj e' = eobj e /\ ecl e' = ecl e /\ ename e' = ename e
+                   /\ elive e' = elive e /\ ecancel e' = ecancel e /\ ehealthy e' = ehealthy e
+                   /\ ep_done s' e' = ep_done s e
+                   /\ ((ecl e <> o \/ elive e = false) -> e' = e))
   /\ (forall o2, cl_done s' o2 = cl_done s o2)
   /\ reqs s' = reqs s
   /\ (forall r, match rep r with
                 | Some eo => exists e, find_ep s eo = Some e /\ (ecl e <> o \/ zmem (ename e) want = true \/ elive e = false)
                 | None => True end -> req_done s' r = req_done s r).
 Proof.
-  intros rc s name aliases want o c Hr Hc Hp Hcf s'. split; [|split; [|split; [|split]]].
+  intros rc ops name aliases sv o c s want Hr Hc Hp Hcf s'.
+  assert (Hpp : forall e, In e (eps s) -> pparent e = PEp) by (apply (pp_run rc ops init pp_init)).
+  subst want s'.
+  split; [|split; [|split; [|split]]].
   - intros eo e Hf He Hl Hw. split.
-    + apply (remove_gone rc s name aliases want o c Hr Hc Hp Hcf eo e Hf He Hl Hw).
-    + intros r Hin Hrep. apply (remove_req_done rc s name aliases want o c Hr Hc Hp Hcf r eo e Hin Hrep Hf He Hl Hw).
-  - apply (remove_sibling rc s name aliases want o c Hr Hc Hp Hcf).
-  - apply (remove_cl_done rc s name aliases want o c Hr Hc Hp Hcf).
-  - apply (remove_reqs rc s name aliases want o c Hr Hc Hp Hcf).
-  - apply (remove_req_other rc s name aliases want o c Hr Hc Hp Hcf).
+    + apply (remove_gone rc s name aliases sv o c Hr Hc Hp Hcf Hpp eo e Hf He Hl Hw).
+    + intros r Hin Hrep. exact (remove_req_done rc s name aliases sv o c Hr Hc Hp Hcf Hpp r eo e Hin Hrep Hf He Hl Hw).
+  - apply (remove_sibling rc s name aliases sv o c Hr Hc Hp Hcf); try exact Hpp.
+  - apply (remove_cl_done rc s name aliases sv o c Hr Hc Hp Hcf); try exact Hpp.
+  - apply (remove_reqs rc s name aliases sv o c Hr Hc Hp Hcf); try exact Hpp.
+  - apply (remove_req_other rc s name aliases sv o c Hr Hc Hp Hcf); try exact Hpp.
 Qed.
 Print Assumptions C15_remove_endpoint.
+
+(* The invariant behind clause 1, over every history: every probe context that exists was derived from
+   the context of its own endpoint (never from the cluster context), whichever path of
+   addOrUpdateEndpoint created it. *)
+Theorem C15_probe_context_parent : forall rc ops e,
+  In e (eps (run rc init ops)) -> pparent e = PEp.
+Proof. intros rc ops. apply (pp_run rc ops init pp_init). Qed.
+Print Assumptions C15_probe_context_parent.
 
 (* Over every continuation [ops] of any state: a cluster context that is done stays done, an endpoint
    (probe) context that is done stays done, an endpoint object that left the map never comes back
@@ -143,7 +164,7 @@ Print Assumptions C15_cut_needs_done_context.
 (* Before fix 9edc511 clause 4 of C15_delete_cluster was false: a request that had resolved the cluster
    before the deletion was forwarded to an endpoint of the deleted cluster. *)
 Definition stale_witness : list op :=
-  [OUpsert 0 [] [10]; OHealthy 1; OStart 7 0 []; ODelete 0].
+  [OUpsert 0 [] [(10, false)]; OHealthy 1; OStart 7 0 []; ODelete 0].
 Theorem C15_stale_request_forwarded_before_fix :
   exists ops id choice eo,
     In (EDoomed eo) (snd (step false (run false init ops) (OPick id choice)))
@@ -155,7 +176,7 @@ Print Assumptions C15_stale_request_forwarded_before_fix.
 (* two clusters; requests streaming on cluster 0 (endpoint object 1) and cluster 1 (object 4), one
    request resolved on cluster 0 and not yet dispatched; cluster 0 is deleted *)
 Definition demo : list op :=
-  [OUpsert 0 [5] [10; 11]; OUpsert 1 [] [20]; OHealthy 1; OHealthy 2; OHealthy 4;
+  [OUpsert 0 [5] [(10, false); (11, false)]; OUpsert 1 [] [(20, false)]; OHealthy 1; OHealthy 2; OHealthy 4;
    OStart 100 0 [10]; OPick 100 0; OHeaders 100;
    OStart 101 1 []; OPick 101 0; OHeaders 101;
    OStart 102 5 []].
@@ -171,9 +192,21 @@ Proof. vm_compute. repeat split; reflexivity. Qed.
 
 Example C15_remove_nonvacuous :
   let s := run true init demo in
-  let s' := run true s [OUpsert 0 [5] [11]; OCancelSeen 100; OCancelSeen 101; OPick 102 0; OFinish 101] in
+  let s' := run true s [OUpsert 0 [5] [(11, false)]; OCancelSeen 100; OCancelSeen 101; OPick 102 0; OFinish 101] in
   conflict s 0 [0; 5] = false
   /\ map rph (reqs s') = [PDone RCut; PDone R200; PConnecting]
   /\ map (fun r => rep r) (reqs s') = [Some 1; Some 4; Some 2]
+  /\ snd (step true s' (OTick 1)) = [] /\ snd (step true s' (OTick 2)) = [EProbe 2].
+Proof. vm_compute. repeat split; reflexivity. Qed.
+
+(* the probe loop of endpoint object 1 is started on the UPDATE path (added disabled, enabled by a later
+   sync; then disabled and enabled once more), it is probed while listed, and not probed once removed *)
+Example C15_remove_restarted_probe_nonvacuous :
+  let pre := [OUpsert 0 [] [(10, true); (11, false)]; OUpsert 0 [] [(10, false); (11, false)];
+              OUpsert 0 [] [(10, true); (11, false)]; OUpsert 0 [] [(10, false); (11, false)]] in
+  let s := run true init pre in
+  let s' := run true s [OUpsert 0 [] [(11, false)]] in
+  snd (step true (run true init [OUpsert 0 [] [(10, true); (11, false)]]) (OTick 1)) = []
+  /\ snd (step true s (OTick 1)) = [EProbe 1]
   /\ snd (step true s' (OTick 1)) = [] /\ snd (step true s' (OTick 2)) = [EProbe 2].
 Proof. vm_compute. repeat split; reflexivity. Qed.
